@@ -440,7 +440,7 @@ def compare(case, rdoc, rc, ic, raw, acc):
       continue            # no tts:extent on tt: the root container extent is implementation defined
     if want != got:
       clause = "C04.lang" if name == "lang" else f"C04.param.{name}"
-      acc.violation(clause, d or name, case, observed=got, expected=want, note=f"document parameter {name}")
+      acc.violation(clause, (case.get("dp") or {}).get(name) or d or name, case, observed=got, expected=want, note=f"document parameter {name}")
       nv += 1
   if rc["initials"] != ic["initials"]:
     acc.violation(case["clause"] if case.get("area") == "value" else "C04.initial", d or "initial", case, observed=ic["initials"], expected=rc["initials"])
@@ -456,10 +456,8 @@ def compare(case, rdoc, rc, ic, raw, acc):
     clause = case.get("clause") or "C04.structure"
     disc = d or aspect
     note = f"t={t}: {aspect}: {detail}"
-    if aspect == "lang":
-      clause, disc = "C04.lang", d or "lang"
-    elif aspect == "space":
-      clause, disc = "C04.space", d or "space"
+    if aspect in ("lang", "space"):
+      clause, disc = f"C04.{aspect}", "on=" + detail.split(":")[0]
     if case.get("area") == "graph" and aspect == "styles" and case.get("clause") != "C04.style.nested.chain":
       disc = graph_disc(case, rs, is_)
       clause = "C04.style.chain" if "chained" in disc else "C04.style.precedence"
